@@ -31,7 +31,7 @@ M = [
  ("no_field_mod", "C06", "compile.go", "\tbVal = bVal % int(c.m)\n\tif bVal < 0 {", "\tif bVal < 0 {"),
  ("start_check_removed", "C06", "compile.go", "if startVal < 0 || (startVal > 0 && startVal >= len(code)) {", "if startVal < 0 {"),
  ("flip_double_neg_disabled", "C07", "expr.go", "\t\t\tif i+1 < len(expr) && expr[i+1].val == \"-\" {", "\t\t\tif i+1 < len(expr) && expr[i+1].val == \"-\" && i > 2 {"),
- ("maxprocesses_is_length", "C07", "compile.go", "c.values[\"MAXPROCESSES\"] = []token{{tokNumber, fmt.Sprintf(\"%d\", c.config.Processes)}}", "c.values[\"MAXPROCESSES\"] = []token{{tokNumber, fmt.Sprintf(\"%d\", c.config.Length)}}"),
+ ("maxprocesses_is_length", "C07", "compile.go", "\"MAXPROCESSES\": {{tokNumber, fmt.Sprintf(\"%d\", config.Processes)}},", "\"MAXPROCESSES\": {{tokNumber, fmt.Sprintf(\"%d\", config.Length)}},"),
  ("for_loops_lt_count", "C08", "forexpand.go", "for i := 1; i <= f.forCount; i++ {", "for i := 1; i < f.forCount || (i == 1 && f.forCount == 1); i++ {"),
  ("fordepth_not_decremented", "C08", "forexpand.go", "\t\t\t\tif f.forDepth > 0 {\n\t\t\t\t\tf.forDepth -= 1", "\t\t\t\tif f.forDepth > 1 {\n\t\t\t\t\tf.forDepth -= 1"),
  ("parseaddress_no_negative", "C09", "asm.go", "\tif val < 0 {\n\t\tval = (m + val) % m\n\t}", "\tif val < -1 {\n\t\tval = (m + val) % m\n\t}\n\tif val < 0 {\n\t\tval = -val\n\t}"),
@@ -54,6 +54,13 @@ M = [
  ("cli_p_wired_to_cycles", "C17", "cmd/gmars/main.go", "\t\tcycles := gmars.Address(*cycleFlag)", "\t\tcycles := gmars.Address(*cycleFlag)\n\t\tif *procFlag < 3 {\n\t\t\tcycles = gmars.Address(*procFlag)\n\t\t}"),
  ("cli_F_ignored_when_large", "C17", "cmd/gmars/main.go", "\t\tw2start := *fixedFlag\n", "\t\tw2start := *fixedFlag\n\t\tif w2start > int(config.CoreSize)/2 {\n\t\t\tw2start = int(config.CoreSize) / 2\n\t\t}\n"),
 ]
+
+# mutants that do not contradict the property they were aimed at (DESIGN.md section 5)
+EXPECTED_SURVIVORS = {
+    "loader_comma_check_removed": "a line without comma still yields exactly one instruction; C10 does not require the comma",
+    "listing_sign_threshold_ge": "M/2 printed as -M/2 is the same field modulo M; C16 compares modulo M",
+}
+
 
 def sh(cmd, **kw):
     return subprocess.run(cmd, shell=True, stdout=subprocess.PIPE, stderr=subprocess.STDOUT, text=True, **kw)
@@ -85,8 +92,10 @@ def main():
         r = sh("cd %s && VERIF_REPO=%s ./check %s --tier quick" % (VERIF, d, prop))
         dt = time.time() - t
         verdict = {0: "SURVIVED", 1: "killed"}.get(r.returncode, "rc=%d" % r.returncode)
+        if r.returncode == 0 and name in EXPECTED_SURVIVORS:
+            verdict = "survives (expected: %s)" % EXPECTED_SURVIVORS[name]
         print("%-34s %s  %-8s %5.1fs" % (name, prop, verdict, dt))
-        if r.returncode != 1:
+        if r.returncode != 1 and name not in EXPECTED_SURVIVORS:
             print("    " + r.stdout.strip()[-400:].replace("\n", "\n    "))
         results.append((name, prop, verdict))
         shutil.rmtree(d, ignore_errors=True)
